@@ -49,6 +49,11 @@ func (s *swamp) PatchExpired(howMany int32, ops []msgpackpatch.Op, condition *ms
 	if capPredicate != nil {
 		s.capMu.Lock()
 		defer s.capMu.Unlock()
+		var exhausted bool
+		capPredicate, capMax, exhausted = s.capBudgetOverSwamp(capPredicate, capMax)
+		if exhausted {
+			return nil, true, nil
+		}
 	}
 
 	atomic.StoreInt64(&s.lastInteractionTime, time.Now().UnixNano())
@@ -103,6 +108,31 @@ func (s *swamp) PatchExpired(howMany int32, ops []msgpackpatch.Op, condition *ms
 	}
 
 	return results, capReached, nil
+}
+
+// capBudgetOverSwamp must be called with capMu held. It counts the records
+// matching capPredicate over the main key index — i.e. over every record of
+// the swamp, which is what Cap.MaxMatching is documented to bound — and
+// returns the (predicate, max) pair to hand to the beacon-level selection.
+//
+// The beacon-level selection counts capPredicate over the keys of the index
+// beacon it walks. That is only a subset of the swamp: the expiration index
+// holds records with a non-zero ExpiredAt, the creation/update indexes hold
+// records with a non-zero CreatedAt/UpdatedAt. Matching records outside the
+// walked index (e.g. claimed records whose patch cleared ExpiredAt) would
+// not be counted and the cap could be exceeded by sequential callers. The
+// swamp-wide count is therefore folded into max here and the returned
+// predicate matches nothing, so nothing is counted twice.
+//
+// Every flow that can move a record into Cap.Filter holds capMu while it
+// does so; the count can only shrink while we hold it, so the budget is
+// conservative. exhausted reports budget <= 0.
+func (s *swamp) capBudgetOverSwamp(capPredicate func(treasure.Treasure) bool, capMax int32) (func(treasure.Treasure) bool, int32, bool) {
+	budget := int(capMax) - s.beaconKey.CountMatching(capPredicate)
+	if budget <= 0 {
+		return capPredicate, capMax, true
+	}
+	return func(treasure.Treasure) bool { return false }, int32(budget), false
 }
 
 // applyPatchExpiredOne runs one per-treasure patch under the treasure's
